@@ -5,9 +5,10 @@ Property theorems only; proofs in TddaVerif/Lemmas/Regen.lean.
 import TddaVerif.Model.Regen
 import TddaVerif.Props.C19Spec
 import TddaVerif.Lemmas.Regen
+import TddaVerif.Model.RefPytest
 
 namespace TddaVerif.Props.C10
-open TddaVerif.Py TddaVerif.RefTestCase TddaVerif.CheckStrings TddaVerif.Regen
+open TddaVerif.Py TddaVerif.RefTestCase TddaVerif.CheckStrings TddaVerif.Regen TddaVerif.RefPytest
 
 /-- **The regeneration table over histories.** After any sequence of `set_regeneration` calls the
     decision for a kind is the value of the last call for that kind; if there was none, of the last
@@ -86,5 +87,46 @@ theorem regenerate_then_pass_binary (t t' : RegenTable) (kind : Option Arg)
 example : shouldRegenerate (applySets [] [(none, true), (some "graph".toList, false)]) (some "table".toList) = true := by decide
 example : shouldRegenerate (applySets [] [(none, true), (some "graph".toList, false)]) (some "graph".toList) = false := by decide
 example : universal "a\r\nb\rc\n".toList = "a\nb\nc\n".toList := by decide
+
+/-! ### the pytest spellings (referencepytest.ref: --write-all, --write KIND ..., kinds separate or comma-separated) -/
+
+
+theorem refTable_eq (writeAll : Bool) (write : Option (List Arg)) :
+    refTable writeAll write = applySets [] ((refOps writeAll write).map (fun k => (k, true))) := by
+  simp [refTable, applySets, List.foldl_map]
+
+/-- ref(request): a kind is regenerated iff write-all was given or the kind is one of the comma-separated parts of a
+    write parameter (with write-all the named kinds add nothing) -/
+theorem ref_table_spec (writeAll : Bool) (write : Option (List Arg)) (k : Arg) :
+    shouldRegenerate (refTable writeAll write) (some k) =
+      (writeAll || (match write with
+                    | none => false
+                    | some ps => (ps.flatMap (fun p => splitComma p [])).contains k)) := by
+  rw [refTable_eq, Lemmas.regen_all_true]
+  cases writeAll with
+  | true => simp [refOps]
+  | false =>
+    cases write with
+    | none => simp [refOps]
+    | some ps =>
+      simp only [refOps, Bool.false_eq_true, if_false, Bool.false_or]
+      rw [Bool.eq_iff_iff]; simp
+
+/-- ... and the unnamed kind (assertions without a kind) is regenerated only by write-all -/
+theorem ref_table_unnamed (writeAll : Bool) (write : Option (List Arg)) :
+    shouldRegenerate (refTable writeAll write) none = writeAll := by
+  rw [refTable_eq, Lemmas.regen_all_true]
+  cases writeAll with
+  | true => simp [refOps]
+  | false =>
+    cases write with
+    | none => simp [refOps]
+    | some ps => simp [refOps]
+
+
+/- non-vacuity -/
+example : shouldRegenerate (refTable false (some ["table,graph".toList, "csv".toList])) (some "graph".toList) = true := by decide
+example : shouldRegenerate (refTable false (some ["table,graph".toList])) (some "csv".toList) = false := by decide
+example : shouldRegenerate (refTable true (some ["table".toList])) (some "csv".toList) = true := by decide
 
 end TddaVerif.Props.C10
